@@ -47,6 +47,16 @@ pub enum SimEnd {
 }
 
 fn packet_bytes(t: &RTopo, s: usize, d: usize, dp: &RStdPath) -> Vec<u8> {
+    packet_bytes_with(t, s, d, RPath::Standard(dp.clone()))
+}
+
+fn packet_bytes_with(t: &RTopo, s: usize, d: usize, path: RPath) -> Vec<u8> {
+    let path_type = match &path {
+        RPath::Empty => 0,
+        RPath::Standard(_) => 1,
+        RPath::OneHop { .. } => 2,
+        RPath::Opaque { path_type, .. } => *path_type,
+    };
     let mut p = RPacket {
         version: 0,
         traffic_class: 0,
@@ -54,7 +64,7 @@ fn packet_bytes(t: &RTopo, s: usize, d: usize, dp: &RStdPath) -> Vec<u8> {
         next_hdr: 17,
         hdr_len_units: 0,
         payload_len: 0,
-        path_type: 1,
+        path_type,
         dt: 0,
         dl: 0,
         st: 0,
@@ -64,7 +74,7 @@ fn packet_bytes(t: &RTopo, s: usize, d: usize, dp: &RStdPath) -> Vec<u8> {
         src_ia: t.ases[s].ia(),
         dst_host: vec![10, 0, 0, 2],
         src_host: vec![10, 0, 0, 1],
-        path: RPath::Standard(dp.clone()),
+        path,
         payload: vec![0, 1, 0, 2, 0, 12, 0, 0, 1, 2, 3, 4],
         trailing: 0,
     };
@@ -376,6 +386,9 @@ pub fn run(args: &Args, mon: &mut Mon) -> (String, Vec<&'static str>) {
     mon.floor("family:corrupt", 100);
     mon.floor("family:link-down", 50);
     mon.floor("family:mid-path", 50);
+    mon.floor("empty_path_delivered_at_destination", 50);
+    mon.floor("onehop_delivered_at_destination", 20);
+    mon.floor("misaddressed_refused", 50);
     let thorough = args.thorough();
     let scale = args.param_u64("scale", 1);
     let n_topo: u64 = if thorough { 1500 * scale } else { 100 * scale };
@@ -413,6 +426,54 @@ pub fn run(args: &Args, mon: &mut Mon) -> (String, Vec<&'static str>) {
         for (s, d) in pairs {
             for p in combine::combine(&t, s, d, &b.core_segments, &b.noncore_segments).into_iter().take(if thorough { 8 } else { 4 }) {
                 all_paths.push((s, d, p));
+            }
+        }
+        // one-hop and empty paths: whatever the path type, a packet is handed to the local
+        // network only in the AS it is addressed to
+        for _ in 0..4 {
+            let s = r.usize(n);
+            let other = (s + 1 + r.usize(n - 1)) % n;
+            let links: Vec<(u16, usize)> = t.links.iter().filter(|l| l.up).filter_map(|l| if l.a == s { Some((l.a_if, l.b)) } else if l.b == s { Some((l.b_if, l.a)) } else { None }).collect();
+            let mut cases: Vec<(&'static str, RPath, usize, usize)> = vec![("empty:addressed-here", RPath::Empty, s, s), ("empty:addressed-elsewhere", RPath::Empty, other, s)];
+            if let Some((eg, nb)) = links.first().copied() {
+                let ts = base_ts - 10;
+                let beta = r.u16();
+                let mk = |dst: usize| {
+                    let mac = refscion::mac::hop_mac(&t.ases[s].key, beta, ts, 63, 0, eg);
+                    (RPath::OneHop { info: refscion::wire::RInfo { flags: 1, rsv: 0, seg_id: beta, timestamp: ts }, hops: [refscion::wire::RHop { flags: 0, exp: 63, cons_in: 0, cons_eg: eg, mac }, refscion::wire::RHop { flags: 0, exp: 0, cons_in: 0, cons_eg: 0, mac: [0; 6] }] }, dst)
+                };
+                let third = (0..n).find(|x| *x != s && *x != nb);
+                let (p1, d1) = mk(nb);
+                cases.push(("onehop:addressed-to-neighbour", p1, d1, nb));
+                if let Some(o) = third {
+                    let (p2, d2) = mk(o);
+                    cases.push(("onehop:addressed-elsewhere", p2, d2, nb));
+                }
+            }
+            for (label, path, dst, _ends_at) in cases {
+                let mut bytes = packet_bytes_with(&t, s, dst, path);
+                m.eval();
+                m.count("family:other-path-types");
+                let rj = json!({"case": info, "family": label, "src": s, "dst": dst, "packet": hex(&bytes)});
+                match run_sim(&topo, &t, &mut bytes, s, 0, base_ts) {
+                    Err(pn) => m.violation(format!("panic:simulator:{}", pn.site()), pn.0, rj),
+                    Ok((SimEnd::Delivered { at }, _)) => {
+                        m.shape(&("other-path-types", label, "delivered"));
+                        if at != t.ases[dst].ia() {
+                            m.violation(format!("delivered-outside-destination-as:{}", label.split(':').next().unwrap_or("")), format!("{label}: delivered at {at:x}, destination is {:x}", t.ases[dst].ia()), rj);
+                        } else {
+                            m.count(if label.starts_with("empty") { "empty_path_delivered_at_destination" } else { "onehop_delivered_at_destination" });
+                        }
+                    }
+                    Ok((SimEnd::TooManySteps(k), _)) => m.violation("more-steps-than-hop-fields", format!("{label}: {k} steps"), rj),
+                    Ok((end, _)) => {
+                        m.shape(&("other-path-types", label, "not-delivered"));
+                        if label.ends_with("elsewhere") {
+                            m.count("misaddressed_refused");
+                        }
+                        let _ = end;
+                    }
+                }
             }
         }
         for (idx, (s, d, p)) in all_paths.iter().enumerate() {
